@@ -427,6 +427,24 @@ func cmdCheck(args []string) int {
 	if len(samples) == 0 {
 		cov["samples"] = []interface{}{"(no obligation discharged)"}
 	}
+	if f := os.Getenv("GOVC_VALIDATION"); f != "" {
+		// bounded differential validation of the assumed contracts against the real libraries (never counted as proved)
+		if data, err := os.ReadFile(f); err == nil {
+			var lines []string
+			for _, ln := range strings.Split(strings.TrimSpace(string(data)), "\n") {
+				if ln = strings.TrimSpace(ln); ln != "" {
+					lines = append(lines, ln)
+				}
+			}
+			okV := strings.Contains(string(data), "exit=0")
+			cov["assumed_contracts_bounded_validation"] = map[string]interface{}{
+				"label": "BOUNDED: 20000 random cases per group (2000 for addresses/coins), seeded by VERIF_SEED; not a proof",
+				"agrees_with_real_libraries": okV, "output": lines, "harness": "/verif/validate/zz_assumed_contracts_test.go"}
+			if !okV {
+				fmt.Println("WARNING: an assumed contract disagrees with the real library on a sampled input (see evidence); this is a defect of the trusted base, not a violation of the property")
+			}
+		}
+	}
 	if f := os.Getenv("GOVC_SELFTEST"); f != "" {
 		// must-fail self-test (thorough tier): seeded changes of this property, run on a scratch worktree
 		if data, err := os.ReadFile(f); err == nil {
